@@ -5,6 +5,7 @@ _UNIT_MODULES = [
     "units.u_bigint.unit",
     "units.u_constrain.unit",
     "units.u_resolver.unit",
+    "units.u_bitvec.unit",
 ]
 
 UNITS = {}
